@@ -493,7 +493,9 @@ def expected_params1(case: dict, agent, act: str, par: dict) -> Optional[dict]:
     kc = tap1_cfg(case)["agent_settings"]["kill_chain"]
     c2, pay = kc["COMMAND_AND_CONTROL"], kc["PAYLOAD"]
     TARGET_IP = target_of(case)     # noqa: N806  (the selected target address)
-    node = par.get("node_name", par.get("source_node"))
+    # every action of the DOWNLOAD … COMMAND_AND_CONTROL stages runs on the selected start node, the `c2-server-*` actions of
+    # PAYLOAD on the configured C2 server
+    node = c2["c2_server_name"] if act.startswith("c2-server-") else agent.starting_node
     if act == "node-folder-create":
         return {"node_name": node, "folder_name": "downloads"}
     if act == "node-file-create":
